@@ -83,18 +83,6 @@ theorem C12_good_wire (c : Cfg) (r : Req) (i : Inner) (hok : Inner.ok i = true) 
     simp only [hb', Bool.false_eq_true, if_false]
     exact hg
 
-/-- Known finding C12-head-templates (witness, on the model that mirrors the code): for a HEAD
-request the static file server writes the header only, so `templates` renders an empty body: a
-template file whose GET answer is 500 (it fails in Execute) is answered 200 on HEAD.  `C12_good_wire`
-above is about the handler behaviour *of the request at hand*; "HEAD is answered as GET would be"
-holds for every inner handler that behaves the same for both methods (the probe), not for
-templates over the file server. -/
-theorem C12_head_templates_fails_witness :
-    let c : Cfg := { log := false, gzip := false, header := false, errors := none, templates := true }
-    (serveWire c ⟨true, false, false⟩ (.write (some 200) [1, 2, 3] false .tplExec true)).status = 500 ∧
-    (serveWire c ⟨true, false, true⟩ (.write (some 200) [] false .plain true)).status = 200 := by
-  decide
-
 theorem C12_model_verdict_ok (c : Cfg) (r : Req) (i : Inner) (hok : Inner.ok i = true) :
     verdict r.head (tplOn c r) (effectiveErrors c) i (serveWire c r i) = "ok" := by
   unfold verdict; rw [C12_good_wire c r i hok]; rfl
